@@ -22,6 +22,13 @@ def behaviours (entry : Nat) : List (Trace × Outcome) := runAll pipeline extCan
 /-- the translator understood every statement of the pipeline functions -/
 theorem no_opaque : opaqueStatements = [] := by decide
 
+/-- what an `emit` of the skeleton stands for: a nil check around ONE plain (blocking) channel send - no `select`, no
+timeout, no goroutine, no default branch, so an event is delivered before the pipeline continues and never dropped -/
+theorem emit_is_blocking_send : dispatchBody = "{ if eventChan != nil { *eventChan <- event } }" := by decide
+
+/-- what a `close` of the skeleton stands for: a nil check around one `close` -/
+theorem close_is_plain_close : closeBody = "{ if eventChan != nil { close(*eventChan) } }" := by decide
+
 /-- calls read as `skip` are exactly the known constructors/option setters -/
 theorem other_calls_known : otherCalls =
     ["decoder.UseNumber", "json.NewDecoder", "ld.NewJsonLdOptions", "ld.NewJsonLdProcessor", "make",
